@@ -113,6 +113,49 @@ func (c *Ctx) ruleLazyIndex(rule string) {
 			}
 		}
 	}
+	// out-of-order detection: `if num < lastNum { outOfOrder = true }` for every record
+	if lastNumO != nil && numO != nil {
+		direct, anywhere := false, false
+		isTest := func(st ast.Stmt) bool {
+			is, ok := st.(*ast.IfStmt)
+			if !ok {
+				return false
+			}
+			be, ok := unparen(is.Cond).(*ast.BinaryExpr)
+			if !ok {
+				return false
+			}
+			x, y, op := be.X, be.Y, be.Op
+			if objOf(info, x) == lastNumO {
+				x, y, op = y, x, flipOp(op)
+			}
+			if op != token.LSS || objOf(info, x) != numO || objOf(info, y) != lastNumO {
+				return false
+			}
+			for _, b := range is.Body.List {
+				if as, ok := b.(*ast.AssignStmt); ok && len(as.Rhs) == 1 {
+					if v, ok := constBool(info, as.Rhs[0]); ok && v {
+						return true
+					}
+				}
+			}
+			return false
+		}
+		for _, st := range loop.Body.List {
+			if isTest(st) {
+				direct = true
+			}
+		}
+		walk(loop.Body, func(n ast.Node) bool {
+			if st, ok := n.(ast.Stmt); ok && isTest(st) {
+				anywhere = true
+			}
+			return true
+		})
+		if anywhere || direct {
+			R.Check(direct, rule, fi.Key+" out-of-order", P.Pos(loop), "`if num < lastNum { outOfOrder = true }` is a direct statement of the loop body", "the out-of-order test `num < lastNum` is not evaluated for every record although lastNum tracks every record: a descending pair of lazy fields separated by another record is not noticed, the lazy index stays unsorted, and the lookup of the later field fails (panic on first access, field dropped by Size/Marshal)")
+		}
+	}
 	R.Check(idxEnd >= 0, rule, fi.Key+" end", P.Pos(loop), "`end := start - len(b)` is a direct statement of the loop body",
 		"`end := start - len(b)` is not computed unconditionally on every iteration of the tag loop: index ranges of lazy fields no longer end at the field's own end")
 	R.Check(idxPos >= 0, rule, fi.Key+" pos", P.Pos(loop), "`pos = end` is a direct statement of the loop body",
@@ -349,5 +392,53 @@ func (c *Ctx) ruleLazyExpandBeforeDecode(rule string) {
 		if n == 0 {
 			R.Unk(rule, fi.Key, P.Pos(fi.Decl), "call of the field's unmarshal function not found")
 		}
+	}
+}
+
+// R-LAZY-DEPTH-SCOPE: bytes retained for lazy decoding were validated under
+// the recursion limit of the Unmarshal call that retained them (validate /
+// skipField receive the caller's remaining depth). The deferred decoder runs
+// with the package-level lazyUnmarshalOptions and drops its error, so its own
+// depth budget must not be smaller than any limit a caller can have used:
+// otherwise a message accepted under a larger RecursionLimit is silently
+// truncated when the lazy field is first accessed.
+func (c *Ctx) ruleLazyDepthScope(rule string) {
+	R, P := c.R, c.P
+	R.Rule(rule, "the depth budget of lazyUnmarshalOptions (used by the deferred decode, whose error is dropped) is at least math.MaxInt32, i.e. never below the RecursionLimit under which the retained bytes were validated", 1)
+	pk := P.Pkg("internal/impl")
+	if pk == nil {
+		R.Unk(rule, "internal/impl", "", "package not loaded")
+		return
+	}
+	info := pk.TypesInfo
+	found := false
+	for _, f := range pk.Syntax {
+		ast.Inspect(f, func(n ast.Node) bool {
+			vs, ok := n.(*ast.ValueSpec)
+			if !ok || len(vs.Names) != 1 || vs.Names[0].Name != "lazyUnmarshalOptions" || len(vs.Values) != 1 {
+				return true
+			}
+			cl, ok := vs.Values[0].(*ast.CompositeLit)
+			if !ok {
+				return true
+			}
+			found = true
+			depth := int64(0)
+			has := false
+			for _, el := range cl.Elts {
+				if kv, ok := el.(*ast.KeyValueExpr); ok {
+					if k, ok := kv.Key.(*ast.Ident); ok && k.Name == "depth" {
+						if v, ok := constInt(info, kv.Value); ok {
+							depth, has = v, true
+						}
+					}
+				}
+			}
+			R.Check(has && depth >= 2147483647, rule, "internal/impl.lazyUnmarshalOptions depth", P.Pos(cl), "depth budget "+itoa64(depth), "the deferred decoder's depth budget is "+itoa64(depth)+": a message unmarshaled with a larger UnmarshalOptions.RecursionLimit passes validation, but its lazy fields are decoded only down to this depth and the decode error is dropped — the lazily decoded tree is silently truncated, unlike the eager decode")
+			return true
+		})
+	}
+	if !found {
+		R.Unk(rule, "internal/impl.lazyUnmarshalOptions", "", "variable not found")
 	}
 }
